@@ -855,6 +855,10 @@ func (p *Policy) sanitizeStyles(attr html.Attribute, elementName string) html.At
 		}
 	}
 
+	// Empty declarations ("a: b;; c: d", a leading ";") are valid CSS that the
+	// parser does not accept
+	attr.Val = dropEmptyDeclarations(attr.Val)
+
 	//Add semi-colon to end to fix parsing issue
 	attr.Val = strings.TrimRight(attr.Val, " \t\n\r\f")
 	if len(attr.Val) > 0 && (attr.Val[len(attr.Val)-1] != ';' || escapedSemicolonSuffix(attr.Val)) {
@@ -927,6 +931,65 @@ decLoop:
 		attr.Val = ""
 	}
 	return attr
+}
+
+// dropEmptyDeclarations removes every semi-colon of a declaration list that
+// ends nothing, that is one preceded only by white space since the start or
+// since the previous semi-colon. Only semi-colons outside strings, comments,
+// escapes and brackets are looked at, everything else is left untouched
+func dropEmptyDeclarations(style string) string {
+	var b strings.Builder
+	empty := true
+	depth := 0
+	for i := 0; i < len(style); i++ {
+		c := style[i]
+		switch {
+		case c == ' ' || c == '\t' || c == '\n' || c == '\r' || c == '\f':
+			b.WriteByte(c)
+			continue
+		case c == ';' && depth == 0:
+			if !empty {
+				b.WriteByte(c)
+			}
+			empty = true
+			continue
+		case c == '\\' && i+1 < len(style):
+			b.WriteByte(c)
+			i++
+			c = style[i]
+		case c == '"' || c == '\'':
+			end := i + 1
+			for end < len(style) && style[end] != c {
+				if style[end] == '\\' {
+					end++
+				}
+				end++
+			}
+			if end >= len(style) {
+				// unterminated, nothing after this point is touched
+				b.WriteString(style[i:])
+				return b.String()
+			}
+			b.WriteString(style[i:end])
+			i = end
+		case c == '/' && i+1 < len(style) && style[i+1] == '*':
+			end := strings.Index(style[i+2:], "*/")
+			if end < 0 {
+				b.WriteString(style[i:])
+				return b.String()
+			}
+			b.WriteString(style[i : i+2+end+1])
+			i += 2 + end + 1
+			c = style[i]
+		case c == '(' || c == '[' || c == '{':
+			depth++
+		case (c == ')' || c == ']' || c == '}') && depth > 0:
+			depth--
+		}
+		empty = false
+		b.WriteByte(c)
+	}
+	return b.String()
 }
 
 // cssValueSelfContained reports whether a declaration value closes every
